@@ -437,14 +437,14 @@ def _stmt_starts(toks, lo, hi):
     prev = '{'
     for i in range(lo, hi):
         t = toks[i]
-        if depth_paren == 0 and prev in ('{', ';', '}') and t.text not in ('}',):
+        if depth_paren == 0 and prev in ('{', ';', '}') and t.text not in ('}', 'else', '.', '?'):
             starts.append(i)
         if t.kind == 'punct' and t.text in ('(', '['): depth_paren += 1
         elif t.kind == 'punct' and t.text in (')', ']'): depth_paren -= 1
         prev = t.text if t.kind == 'punct' else 'x'
     return starts
 
-def assemble_fn(repo, fs, record, canary=None, stub=False):
+def assemble_fn(repo, fs, record, canary=None, stub=False, soft=None):
     path = os.path.join(repo, fs.file)
     try:
         src = open(path).read()
@@ -465,12 +465,16 @@ def assemble_fn(repo, fs, record, canary=None, stub=False):
     for rid, rf in AUTO_RULES:
         text = rf(text, [], fired)
     for rule, args in fs.rw:
-        if rule == 'txt':
-            text = rule_txt(text, args, fired)
-        elif rule in ARG_RULES:
-            text = ARG_RULES[rule](text, args, fired)
-        else:
-            raise ExtractError('unknown rule ' + rule)
+        try:
+            if rule == 'txt':
+                text = rule_txt(text, args, fired)
+            elif rule in ARG_RULES:
+                text = ARG_RULES[rule](text, args, fired)
+            else:
+                raise ExtractError('unknown rule ' + rule)
+        except ExtractError as e:
+            if soft is None or rule == 'R4': raise
+            soft.append('%s: rewrite %s skipped (%s)' % (fs.name, rule, e))
     toks = _tok_code(text)
     bo = _find_body_open(toks)
     bc = match_close(toks, bo)
@@ -531,6 +535,8 @@ def assemble_fn(repo, fs, record, canary=None, stub=False):
         atoks = [t.text for t in _tok_code(anchor)]
         hits = [i for i in starts if [t.text for t in toks[i:i+len(atoks)]] == atoks]
         if k < 1 or k > len(hits):
+            if soft is not None:
+                soft.append('%s: hint before %r #%d skipped (anchor lost)' % (fs.name, anchor, k)); continue
             raise ExtractError('anchor lost: statement %r #%d in fn %s (%d matches)' % (anchor, k, fs.name, len(hits)))
         if len(hits) > 1 and k == 0:
             raise ExtractError('ambiguous anchor %r in %s' % (anchor, fs.name))
@@ -551,7 +557,7 @@ def assemble_fn(repo, fs, record, canary=None, stub=False):
         prev = '{'
         for i in range(bo + 1, bc):
             t = toks[i]
-            if depth == 0 and prev in ('{', ';', '}'):
+            if depth == 0 and prev in ('{', ';', '}') and t.text not in ('else', '.', '?', ')', ']', '}'):
                 top.append(i)
             if t.kind == 'punct' and t.text in OPEN: depth += 1
             elif t.kind == 'punct' and t.text in CLOSE: depth -= 1
@@ -645,8 +651,10 @@ def _collect_fnspecs(verif, template_path):
     proc(template_path)
     return res
 
-def build_unit(verif, repo, template_path, canary=False):
+def build_unit(verif, repo, template_path, canary=False, soft=False, extra_fns=None):
     u = Unit()
+    u.degraded = []
+    extra_fns = extra_fns or []   # [(repo file, fn name)] helpers the code now calls that have no contract
     out = []      # list of (text, tag, origin)
     def emit(text, tag, origin):
         out.append((text, tag, origin))
@@ -742,7 +750,26 @@ def build_unit(verif, repo, template_path, canary=False):
                 impl_open = (f, hdr.replace('impl ', '', 1))
                 i += 1; continue
             if cmd == 'endimpl':
-                emit('}\n', 'TPL', '%s:%d' % (rel, i + 1)); impl_open = None; i += 1; continue
+                emit('}\n', 'TPL', '%s:%d' % (rel, i + 1))
+                ifile = impl_open[0] if impl_open else None
+                impl_open = None
+                for (xf, xn) in list(extra_fns):
+                    if xf == ifile and (xf, xn) not in state.setdefault('extra_done', set()):
+                        state['extra_done'].add((xf, xn))
+                        xs = FnSpec(); xs.file, xs.name, xs.tline = xf, xn, i + 1
+                        xs.bodyprefix = state['bodyprefix']
+                        try:
+                            xp = assemble_fn(repo, xs, u.functions, None, soft=u.degraded)
+                        except ExtractError as e:
+                            u.degraded.append('helper %s could not be extracted: %s' % (xn, e)); continue
+                        u.functions[-1]['fn'] = '::'.join(state['mods'] + [xn]); u.functions[-1]['vname'] = u.functions[-1]['fn']
+                        u.functions[-1]['auto_helper'] = True
+                        u.degraded.append('new helper fn %s in %s included as an opaque (external_body) function WITHOUT a contract' % (xn, xf))
+                        emit('#[verifier::external_body]\n', 'TPL', rel)
+                        for txt, tag in xp:
+                            emit(txt, tag + '|' + u.functions[-1]['fn'], '%s:%d' % (xf, u.functions[-1]['line']))
+                        emit('\n', 'TPL', rel)
+                i += 1; continue
             if cmd == 'stub':
                 # //@ stub <template> <repo file> <name> [in "<impl header>"] : same signature and contract as in the home unit, body assumed
                 tpl = os.path.join(verif, parts[1])
@@ -813,7 +840,7 @@ def build_unit(verif, repo, template_path, canary=False):
                     else:
                         cur.append(lines[i])
                     i += 1
-                pieces = assemble_fn(repo, fs, u.functions, canary)
+                pieces = assemble_fn(repo, fs, u.functions, canary, soft=(u.degraded if soft else None))
                 w = fs.within.split(' for ')[-1] if fs.within else None
                 if w: w = re.sub(r'<.*', '', w).strip()
                 u.functions[-1]['vname'] = '::'.join(state['mods'] + ([w] if w else []) + [fs.name])
@@ -826,6 +853,22 @@ def build_unit(verif, repo, template_path, canary=False):
                     origin = '%s:%d' % (fs.file, u.functions[-1]['line']) if tag == 'CODE' else '%s:%d' % (rel, fs.tline)
                     emit(txt, tag + '|' + fname, origin)
                 emit('\n', 'TPL', rel)
+                for (xf, xn) in list(extra_fns):
+                    if xf == fs.file and (not fs.within or not impl_open) and (xf, xn) not in state.setdefault('extra_done', set()):
+                        state['extra_done'].add((xf, xn))
+                        xs = FnSpec(); xs.file, xs.name, xs.tline = xf, xn, fs.tline
+                        xs.bodyprefix = fs.bodyprefix
+                        try:
+                            xp = assemble_fn(repo, xs, u.functions, None, soft=u.degraded)
+                        except ExtractError as e:
+                            u.degraded.append('helper %s could not be extracted: %s' % (xn, e)); continue
+                        u.functions[-1]['fn'] = '::'.join(state['mods'] + [xn]); u.functions[-1]['vname'] = u.functions[-1]['fn']
+                        u.functions[-1]['auto_helper'] = True
+                        u.degraded.append('new helper fn %s in %s included as an opaque (external_body) function WITHOUT a contract' % (xn, xf))
+                        emit('#[verifier::external_body]\n', 'TPL', rel)
+                        for txt, tag in xp:
+                            emit(txt, tag + '|' + u.functions[-1]['fn'], '%s:%d' % (xf, u.functions[-1]['line']))
+                        emit('\n', 'TPL', rel)
                 continue
             raise ExtractError('%s:%d unknown directive %s' % (rel, i + 1, cmd))
     process(template_path)
